@@ -29,4 +29,15 @@ theorem sweepExpired_eq (now : Nat) (e : TimeCache.Entry) :
   simp only [Gen.sweepExpired, gt_iff_lt, dec_natCast_lt]
 
 
+theorem upsertExtendsSpan_leaves : Gen.upsertExtendsSpan_leaves = ["existing.span : Int", "duration : Int"] := rfl
+
+/-- `upsert` of a present key: the source replaces the span exactly when the stored one is strictly smaller — the model's
+    `max` (an Upsert never shortens the life of a key) -/
+theorem upsert_span_eq_source (stored given : Nat) :
+    max stored given = (if Gen.upsertExtendsSpan stored given then given else stored) := by
+  simp only [Gen.upsertExtendsSpan, dec_natCast_lt, decide_eq_true_eq]
+  by_cases h : stored < given
+  · simp [h, Nat.max_eq_right (Nat.le_of_lt h)]
+  · simp [h, Nat.max_eq_left (Nat.le_of_not_lt h)]
+
 end SV.GenProofs
